@@ -73,6 +73,18 @@ def run(ck):
         docs.append(add_noise(rng, d, tree))         # the same plus / minus unaddressed ones
         cases.append({"k": "rule", "id": ck.new_id(), "rule": rule_text(det), "docs": [D(d) for d in docs], "sw": SWS,
                       "reads": True, "_keys": set(tree.keys()), "_docs": docs})
+    # coverage families: cast comparisons with a field on either side, matrices (also evaluated per
+    # array element), merged nested blocks, regrouped or-groups, quantified cast bodies
+    import covfam
+    for fam, det, fdocs, extra in covfam.all_cases(skip=("scalar_casts", "list_casts", "many_needles", "loader_errors", "already_optimised")):
+        tree = gen.rule_fields(det)
+        docs = []
+        for d in fdocs[:12 if not thorough else 40]:
+            docs.append(d)
+            docs.append(add_noise(rng, d, tree))
+        cases.append({"k": "rule", "id": ck.new_id(), "rule": rule_text(det, extra=extra), "docs": [D(d) for d in docs], "sw": SWS,
+                      "reads": True, "_keys": set(tree.keys()), "_docs": docs})
+        ck.count("family:" + fam)
     send = rulebase.wire(cases)
     impl, model, _ = lib.run_cases(send, "C16")
     direct_failed = set()
